@@ -125,9 +125,37 @@ def run(ctx):
                 pos += w
             blocks.append(blk)
         blocks_list.append(blocks)
+    def represent(df, blocks, kind):
+        """the same table handed over differently: row labels and column dtypes are not part of what a bin table says"""
+        if kind == "restart":        # per-chromosome labels restarting at 0 (pd.concat without ignore_index): duplicates
+            df.index = [k for blk in blocks for k in range(len(blk))]
+        elif kind == "reversed":
+            df.index = list(range(len(df)))[::-1]
+        elif kind == "offset":
+            df.index = [100 + 3 * k for k in range(len(df))]
+        elif kind == "strings":
+            df.index = [f"r{k % 3}" for k in range(len(df))]
+        elif kind == "int32":
+            df["start"] = df["start"].astype(np.int32); df["end"] = df["end"].astype(np.int32)
+        elif kind == "uint64":
+            df["start"] = df["start"].astype(np.uint64); df["end"] = df["end"].astype(np.uint64)
+        elif kind == "extra":
+            df["gc"] = np.linspace(0, 1, len(df)); df["name"] = [f"b{k}" for k in range(len(df))]
+        elif kind == "unused-category" and isinstance(df["chrom"].dtype, pd.CategoricalDtype):
+            df["chrom"] = df["chrom"].cat.add_categories(["zz_unused"])
+        return df
+    REPS = ["plain", "restart", "reversed", "offset", "strings", "int32", "uint64", "extra", "unused-category"]
+    ncorpus = 4
+    expanded = []
+    for k, blocks in enumerate(blocks_list):
+        small = sum(len(b_) for b_ in blocks) <= 4 and len(blocks) == 2
+        kinds = REPS if (k >= len(blocks_list) - ncorpus or (small and k % 3 == 0)) else [REPS[k % len(REPS)]]
+        expanded += [(blocks, kd) for kd in kinds]
+    blocks_list = [b_ for b_, _ in expanded]
     impl2 = []
-    for blocks in blocks_list:
-        df = table_from_blocks(blocks, categorical=rng.random() < 0.5)
+    for blocks, kd in expanded:
+        df = represent(table_from_blocks(blocks, categorical=rng.random() < 0.5), blocks, kd)
+        ctx.dist["bin-table representation:" + kd] += 1
         bs = get_binsize(df)
         cs = get_chromsizes(df)
         names = names_for(len(blocks))
@@ -139,10 +167,10 @@ def run(ctx):
         bl = C.lst([C.lst([C.tup(C.z(c), C.z(s_), C.z(e)) for (c, s_, e) in blk]) for blk in blocks])
         exprs.append(f"(get_binsize {t}, get_chromsizes {t}, valid_blocks_b {bl})")
     model2 = C.coq_eval("From Cooler Require Import Model.Bins.", exprs, tmpdir=ctx.tmp / "infer")
-    for blocks, (ibs, ics), mo in zip(blocks_list, impl2, model2):
+    for (blocks, kd), (ibs, ics), mo in zip(expanded, impl2, model2):
         mbs, mcs, mvalid = mo
         mbs = None if mbs is None else mbs[1]
-        case = {"fn": "get_binsize/get_chromsizes", "blocks": blocks}
+        case = {"fn": "get_binsize/get_chromsizes", "blocks": blocks, "representation": kd}
         ctx.case(case, nontrivial=any(len(b_) >= 2 for b_ in blocks), kind="infer:" + ("fixed" if ibs is not None else "variable"))
         if not mvalid:
             ctx.disagree("generator produced a table the model calls invalid", case, True, False)
